@@ -340,7 +340,7 @@ func VerifC14_New() {
 // ---- dispatcher: the specification is split at the first '/' or '-' ----
 
 func VerifC14_Dispatch() {
-	n := 1 + verifrt.Choice("speclen", verifrt.Bound("C14.speclen", 5, 6))
+	n := 1 + verifrt.Choice("speclen", verifrt.Bound("C14.speclen", 5, 5))
 	b := verifrt.Bytes("spec", n)
 	for i := range b {
 		verifrt.Assume(b[i] < 0x80)
